@@ -131,6 +131,9 @@ def body(chk, db, cfgname):
                             len([x for x in efa if x not in at.get(f.cfg.pos1(itl[0]["body"]) or (0, 0), frozenset())]) >= 1:
                         continue
                     bad_exit = (e, "an iteration of the %s loop is skipped under a condition that is not the site's own range test" % loop_name(s, so, ss, itl[0]))
+                elif kind == "stop-condition":
+                    bad_exit = (e, "the %s loop has an additional stop condition (%s): it ends at the first %s for which the condition fails, the remaining %s are never enumerated" % (
+                        loop_name(s, so, ss, itl[0]), f.s(e)[:80], "site" if s is itl[0] else "value", "sites" if s is itl[0] else "values"))
                 else:
                     bad_exit = (e, "'%s' leaves the %s loop early: the remaining %s are never enumerated although they may still have this spin/orbital (sites are ordered by label, not by size)" % (
                         kind, loop_name(s, so, ss, itl[0]), "sites" if s is itl[0] else "values"))
@@ -246,6 +249,60 @@ def body(chk, db, cfgname):
         r2.ok(IC + "getIndex", g.loc(), "returns InfoToIndices.find(in)->second on the found edge, IndexSize otherwise", cfgname)
     else:
         r2.bad(IC + "getIndex", g.loc(), "getIndex(info) does not return the stored index on the found edge / IndexSize on the not-found edge", cfgname)
+    # ------------------------------------------------------------------ R3: the key order of the inverse table separates all triples
+    r3 = chk.rule("C18-R3", "IndexInfo::operator< is a lexicographic order on (label, orbital, spin): distinct triples are distinct keys of the inverse table", "F8 guards", 1)
+    lt = db.fn(IC + "IndexInfo::operator<", nparams=1)
+    with r3.guard(IC + "IndexInfo::operator<", lt.loc(), cfgname):
+        lctx = Ctx(lt, db)
+        lat = guard_facts(lt, lctx)
+        rhs = ("param", lt.params[0]["d"], lt.params[0]["n"])
+        II = IC + "IndexInfo::"
+
+        def mine(nm):
+            return ("field", II + nm, THIS)
+
+        def theirs(nm):
+            return ("field", II + nm, rhs)
+        rets = [j for j, n in lt.walk(lt.body) if n["k"] == "return" and n.get("sub") is not None]
+        order = []
+        for j in rets:
+            k = lctx.key(lt.nodes[j]["sub"])
+            k = k[2] if k[0] == "cast" else k
+            if k[0] == "lit":
+                fa = lat.get(lt.cfg.pos1(j), frozenset())
+                tie = all((("==",) + tuple(sorted([mine(c), theirs(c)], key=repr))) in fa for c in ("Orbital", "Spin"))
+                if not tie:
+                    r3.bad(IC + "IndexInfo::operator<:constant-return", lt.loc(j), "operator< returns a constant although Orbital and Spin were not both found equal: distinct (orbital, spin) pairs become equivalent keys", cfgname)
+                continue
+            if not (k[0] == "op" and k[1] in ("<", ">") and len(k) == 4):
+                raise AnalysisBroken("a return of operator< is not a plain comparison of one member with the same member of rhs: %s" % lt.s(lt.nodes[j]["sub"])[:80])
+            a, b = (k[2], k[3]) if k[1] == "<" else (k[3], k[2])
+            nm = None
+            for cand in ("SiteLabelHash", "SiteLabel", "Orbital", "Spin"):
+                if a == mine(cand) and b == theirs(cand):
+                    nm = cand
+            if nm is None:
+                raise AnalysisBroken("operator< compares %s, which is not a single member against the same member of rhs (packed / derived keys cannot be shown to separate all (orbital, spin) pairs)" % lt.s(lt.nodes[j]["sub"])[:80])
+            fa = lat.get(lt.cfg.pos1(j), frozenset())
+            eqs = {c for c in ("SiteLabelHash", "SiteLabel", "Orbital", "Spin") if ("==",) + tuple(sorted([mine(c), theirs(c)], key=repr)) in fa}
+            neq = ("!=",) + tuple(sorted([mine(nm), theirs(nm)], key=repr)) in fa
+            order.append((nm, eqs, neq, j))
+        site = IC + "IndexInfo::operator<"
+        names = [o[0] for o in order]
+        good = set(names) >= {"Orbital", "Spin"} and bool({"SiteLabelHash", "SiteLabel"} & set(names))
+        # lexicographic: the comparison of member k is reached only when all earlier members are equal
+        seq = sorted(order, key=lambda o: len(o[1]))
+        for i, (nm, eqs, neq, j) in enumerate(seq):
+            earlier = {x[0] for x in seq[:i]}
+            if not earlier <= eqs:
+                good = False
+            if i < len(seq) - 1 and not neq:
+                good = False
+        if good:
+            r3.ok(site, lt.loc(), "compares %s in turn, each only when the previous ones are equal" % ", ".join(o[0] for o in seq), cfgname)
+        else:
+            r3.bad(site, lt.loc(), "operator< is not a lexicographic comparison over label, Orbital and Spin (members compared: %s): two different (site, orbital, spin) triples can be equivalent keys, so the inverse table loses entries" % names, cfgname)
+
     chk.undecided.append("invariance of physical results under relabelling / ordering mode (relational, value level)")
     chk.note("IndexInfo::operator< orders by a hash of the site label: a hash collision would merge two sites; none can be exhibited statically (information only)")
 
